@@ -120,6 +120,18 @@ def run(ctx):
                 evals += 1
                 if o != "OK true":
                     viol(f"from_string({text!r}, simplify=True) differs from simplify(): {o}", inputs=dict(text=text))
+                # the text may list the constraints in any order: from_string puts them in version order first
+                parts = txt.split("|")
+                if len(parts) > 1:
+                    shuffled = list(parts)
+                    r.shuffle(shuffled)
+                    if shuffled == parts:
+                        shuffled.reverse()
+                    text2 = f"vers:{registered}/" + "|".join(shuffled)
+                    o2 = vers.res_bool(lambda: str(vr.VersionRange.from_string(text2, simplify=True)) == f"vers:{registered}/" + rtxt)
+                    evals += 1
+                    if o2 != "OK true":
+                        viol(f"from_string({text2!r}, simplify=True) differs from the simplification of the version-sorted list {rtxt!r}: {o2}", inputs=dict(text=text2))
             if ci % 1201 == 0 and len(samples) < 8:
                 samples.append(dict(scheme=s.name, constraints=txt, simplified=rtxt))
     if not violations and (diffs or not proofs["ok"]):
